@@ -276,7 +276,7 @@ def expansion_recipes(target, alt, dct):
     references that use the algorithms' own local names."""
     T = ARGTYPES[target]
     R = []
-    letters = ["a", "b", "c", "d", "e", "f", "g", "h"]
+    letters = ["a", "b", "c", "d", "e", "g", "h", "k"]   # not "f": the function itself is called f
 
     def rec(name, args, steps, body):
         R.append(dict(mode="recipe", id=f"expand:{name}", target=target, alt=bool(alt), dct=dct, fname="f", args=args, steps=steps,
